@@ -65,7 +65,7 @@ def props_theorems(module):
 
 def lean_build(targets):
     t0 = time.time()
-    rc, out, err = run(["lake", "build"] + targets, cwd=LEAN, timeout=3600)
+    rc, out, err = run([os.path.join(VERIF, "bin", "lk"), "build"] + targets, cwd=LEAN, timeout=3600)
     return rc == 0, (out + err), time.time() - t0
 
 
@@ -108,7 +108,9 @@ def build_rt():
     gomod2 = re.sub(r"replace github.com/Workiva/frugal/lib/go => \S+", want, gomod)
     if gomod2 != gomod:
         open(os.path.join(src, "go.mod"), "w").write(gomod2)
-    rc, out, err = run(["go", "build", "-tags", "verif", "-o", os.path.join(BUILD, "rt"), "."], cwd=src, env=GOENV, timeout=1800)
+    tmp = os.path.join(BUILD, "rt.%d" % os.getpid())
+    rc, out, err = run(["go", "build", "-tags", "verif", "-o", tmp, "."], cwd=src, env=GOENV, timeout=1800)
+    if rc == 0: os.replace(tmp, os.path.join(BUILD, "rt"))
     return rc == 0, out + err
 
 
